@@ -11,7 +11,7 @@ vars == <<l, run, serial, st, sig, entered, decision, texts>>
 Ev == TheTrace[l]
 Is(name) == l <= TraceLen /\ Ev.e = name
 
-NoRun == [P |-> 1, plan |-> <<>>, usage |-> 1, hasPos |-> FALSE, exactFirstOnly |-> FALSE, posMod |-> 1, base |-> 0]
+NoRun == [P |-> 1, plan |-> <<>>, usage |-> 1, hasPos |-> FALSE, exactFirstOnly |-> FALSE, posMod |-> 1, base |-> 0, n0 |-> 0]
 Init == /\ l = 1 /\ run = NoRun /\ serial = <<>> /\ st = <<>> /\ sig = <<>> /\ entered = <<>> /\ decision = <<>> /\ texts = [serial |-> 0, mpi |-> 0]
 
 Ranks == 0 .. run.P - 1
@@ -19,16 +19,16 @@ BaseOf(i) == LET F[k \in 0 .. Len(run.plan)] == IF k = 0 THEN 0 ELSE F[k - 1] + 
 Fresh == [it |-> 1, evals |-> 0, seq |-> 0, inside |-> FALSE, adds |-> 0, colls |-> 0, ret |-> TRUE, returned |-> FALSE]
 
 TRun == /\ Is("MRun")
-        /\ run' = [P |-> Ev.P, plan |-> Ev.plan, usage |-> Ev.usage, hasPos |-> Ev.hasPos = 1, exactFirstOnly |-> Ev.exactFirstOnly = 1, posMod |-> Ev.posMod, base |-> Ev.base]
+        /\ run' = [P |-> Ev.P, plan |-> Ev.plan, usage |-> Ev.usage, hasPos |-> Ev.hasPos = 1, exactFirstOnly |-> Ev.exactFirstOnly = 1, posMod |-> Ev.posMod, base |-> Ev.base, n0 |-> Ev.n0]
         /\ serial' = <<>> /\ st' = [r \in 0 .. Ev.P - 1 |-> Fresh] /\ sig' = <<>> /\ entered' = <<>> /\ decision' = <<>>
         /\ texts' = [serial |-> 0, mpi |-> 0] /\ l' = l + 1
 
 \* ---- the serial run of the same configuration (reference)
-TSerialIter == /\ Is("SerialIter") /\ Ev.n = Len(serial) + 1
-               /\ Ev.calls = run.plan[Ev.n]
+TSerialIter == /\ Is("SerialIter") /\ Ev.n = run.n0 + Len(serial) + 1
+               /\ Ev.calls = run.plan[Len(serial) + 1]
                /\ serial' = Append(serial, Ev)
                /\ UNCHANGED <<run, st, sig, entered, decision, texts>> /\ l' = l + 1
-TSerialFinal == /\ Is("SerialFinal") /\ Ev.n = Len(serial) /\ texts' = [texts EXCEPT !.serial = Ev.text]
+TSerialFinal == /\ Is("SerialFinal") /\ Ev.n = run.n0 + Len(serial) /\ texts' = [texts EXCEPT !.serial = Ev.text]
                 /\ UNCHANGED <<run, serial, st, sig, entered, decision>> /\ l' = l + 1
 
 \* ---- one rank evaluates the integrand at the point made from stream position pos
@@ -78,9 +78,10 @@ TAdd ==
            s == st[r]
            i == s.it
            ref == serial[i]
-           exact == (~run.exactFirstOnly) \/ i = 1
+           exact == (~run.exactFirstOnly) \/ (i = 1 /\ run.n0 = 0)
        IN /\ r \in Ranks /\ ~s.inside /\ ~s.returned /\ (run.P = 1 \/ s.colls >= 1 \/ TRUE) /\ s.adds = i - 1
-          /\ Ev.n = i /\ i <= Len(serial)
+          /\ Ev.n = run.n0 + i /\ i <= Len(serial)
+          /\ (i = 1) => Ev.recorded = ref.recorded                                  \* both runs start from the same checkpoint: same first state
           /\ Ev.calls = ref.calls /\ Ev.nz = ref.nz /\ Ev.fin = ref.fin                \* call counters identical
           /\ Ev.gen = ref.gen                                                          \* stored generator identical
           /\ IF exact THEN Ev.rid = ref.rid /\ Ev.recorded = ref.recorded
@@ -94,7 +95,7 @@ TRet ==
     /\ LET r == Ev.rank
            s == st[r]
            i == s.it
-       IN /\ r \in Ranks /\ s.adds = i /\ Ev.n = i
+       IN /\ r \in Ranks /\ s.adds = i /\ Ev.n = run.n0 + i
           /\ (i \in DOMAIN decision) => decision[i] = Ev.ret
           /\ decision' = IF i \in DOMAIN decision THEN decision ELSE (i :> Ev.ret) @@ decision
           /\ (i <= Len(serial) /\ i < Len(run.plan)) => ((Ev.ret = 1) <=> (Len(serial) > i))   \* same stop decision as the serial run
@@ -106,7 +107,7 @@ TReturned ==
     /\ LET r == Ev.rank
            s == st[r]
        IN /\ r \in Ranks /\ ~s.inside /\ ~s.returned /\ s.evals = 0
-          /\ Ev.n = s.adds /\ Ev.n = Len(serial)                                        \* as many iterations as the serial run
+          /\ Ev.n = run.n0 + s.adds /\ s.adds = Len(serial)                             \* as many iterations as the serial run
           /\ (~s.ret) \/ s.it = Len(run.plan) + 1
           /\ (texts.mpi # 0) => Ev.text = texts.mpi                                    \* every rank returns the same checkpoint
           /\ (~run.exactFirstOnly \/ Len(serial) <= 1) => Ev.text = texts.serial       \* ... the serial one when sums are exact
